@@ -621,6 +621,26 @@ func c03Gen(tier string, rng *rand.Rand, emit func(Case)) {
 		emit(Case{Line: fmt.Sprintf("use %d 0 %s %s", rng.Intn(2), strings.Join(specs, ","), strings.Join(toks, " ")),
 			Kind: []string{"aligned", "batched", "mixed"}[mode]})
 	}
+	// result sets and parameter sets in the history (model correspondence only: the oracle's scanner knows
+	// the framing of the self-delimiting packages, a ROW needs its format)
+	if rowFields := collectRowFields(tier, rng); len(rowFields) > 0 {
+		for i := 0; i < n/5; i++ {
+			var toks []string
+			k := 1 + rng.Intn(3)
+			for j := 0; j < k; j++ {
+				var body []byte
+				if rng.Intn(3) == 0 {
+					body = respBytes(c03Response(rng))
+				} else if body = resultSetResponse(rng, rowFields); body == nil {
+					body = respBytes(c03Response(rng))
+				}
+				toks = append(toks, cutTokens(body, randomCuts(rng, len(body), rng.Intn(4)))...)
+				toks = append(toks, "r")
+			}
+			spec := []string{"final", "nil", "fail2", "stop2,final", "eof2,final"}[rng.Intn(5)]
+			emit(Case{Line: fmt.Sprintf("use %d 0 %s %s", rng.Intn(2), spec, strings.Join(toks, " ")), Kind: "result-sets"})
+		}
+	}
 	// early stops: the callback returns true / io.EOF inside a response and the consumer goes on reading
 	stopSpecs := []string{"final", "stop1", "stop2", "stop3", "eof1", "eof2", "eof4"}
 	for i := 0; i < n/8; i++ {
